@@ -42,3 +42,47 @@ static inline sp sp_negn(sp a) { return sp_is0(a) ? a : sp_sub(sp_n(), a); }   /
 /* secp256k1_ec_seckey_verify's documented predicate: 0 < key < n */
 static inline int sp_seckey_valid(sp k) { return !sp_is0(k) && sp_lt(k, sp_n()); }
 #endif
+
+/* ---- second part, needs the TU's types and functions: include spec.h again AFTER "src/secp256k1.c" with
+ * SPEC_VIEWS defined.  Opaque API objects are never read byte-wise by a harness: they are decoded through the
+ * translation unit's own secp256k1_ge_from_bytes / secp256k1_keypair_sec / secp256k1_keypair_pub and the
+ * assertions talk about FIELDS (coordinates as integers, compared mod p). ---- */
+#if defined(SPEC_VIEWS) && !defined(VERIF_C04_SPEC_VIEWS)
+#define VERIF_C04_SPEC_VIEWS
+/* integer value of a field element's limbs (not reduced) */
+#ifndef VERIF_NATIVE
+static inline sp sp_fe(const secp256k1_fe *a) { return fval(a); }
+static inline sp sp_sc(const secp256k1_scalar *a) { return sval(a); }
+#else
+static inline sp sp_fe(const secp256k1_fe *a) {   /* 5x52 limbs (the shipped layout; native replay only) */
+    sp r = sp_u64(0); int i;
+    for (i = 4; i >= 0; i--) { int k; for (k = 0; k < 6; k++) r = sp_shl8_or(r, 0); for (k = 0; k < 4; k++) r = sp_add(r, r); /* r <<= 52 */ r = sp_add(r, sp_u64(a->n[i])); }
+    return r;
+}
+static inline sp sp_sc(const secp256k1_scalar *a) { sp r = sp_u64(0); r.w[0] = a->d[0]; r.w[1] = a->d[1]; r.w[2] = a->d[2]; r.w[3] = a->d[3]; return r; }
+#endif
+/* a mod p for a < 9p (any magnitude <= 8 field element) */
+static inline sp sp_modp8(sp a) { sp p = sp_p(); int i; for (i = 0; i < 9; i++) if (!sp_lt(a, p)) a = sp_sub(a, p); return a; }
+/* coordinates of a pubkey / xonly_pubkey object (64 opaque bytes), reduced mod p; *raw_x_zero = what secp256k1_pubkey_load rejects */
+static inline void view_pk64(const unsigned char *data64, sp *x, sp *y, int *invalid) {
+    secp256k1_ge g; sp rx;
+    secp256k1_ge_from_bytes(&g, data64);
+    rx = sp_fe(&g.x); *invalid = sp_is0(rx);
+    *x = sp_modp(rx); *y = sp_modp(sp_fe(&g.y));
+}
+/* y as stored (not reduced): only for the one place where the code looks at the stored parity bit */
+static inline sp view_pk64_rawy(const unsigned char *data64) { secp256k1_ge g; secp256k1_ge_from_bytes(&g, data64); return sp_fe(&g.y); }
+/* object holds the affine point e (coordinates of magnitude <= 8), compared mod p */
+static inline int pk64_is(const unsigned char *data64, const secp256k1_fe *ex, const secp256k1_fe *ey) {
+    sp x, y; int inv; view_pk64(data64, &x, &y, &inv);
+    return sp_eq(x, sp_modp8(sp_fe(ex))) && sp_eq(y, sp_modp8(sp_fe(ey)));
+}
+/* keypair object: decoded with the public accessors of the same TU, on a private context */
+static inline void view_keypair(const secp256k1_keypair *kp, sp *sk, sp *x, sp *y, int *pk_invalid) {
+    secp256k1_context c2; unsigned char sk32[32]; secp256k1_pubkey pub; int si = g_illegal, se = g_error;
+    verif_ctx_init(&c2);
+    (void)secp256k1_keypair_sec(&c2, sk32, kp); (void)secp256k1_keypair_pub(&c2, &pub, kp);
+    *sk = sp_be32(sk32); view_pk64(pub.data, x, y, pk_invalid);
+    g_illegal = si; g_error = se;
+}
+#endif
